@@ -874,6 +874,80 @@ func c12CrossTalk(w *core.W, j int) {
 	}
 }
 
+// c12MultiHomed: a UDP server on the wildcard address, one client per local address (127.0.0.1 and
+// 127.0.0.2). The first client's handler is held until the second client's datagram has been read;
+// each reply must reach the client it belongs to, i.e. leave from the address that client talked to.
+func c12MultiHomed(w *core.W, j int) {
+	started := make(chan struct{})
+	enteredA, enteredB := make(chan struct{}), make(chan struct{})
+	var onceA, onceB sync.Once
+	h := dns.HandlerFunc(func(rw dns.ResponseWriter, req *dns.Msg) {
+		if strings.HasPrefix(req.Question[0].Name, "a.") {
+			onceA.Do(func() { close(enteredA) })
+			select {
+			case <-enteredB: // the next datagram (from the other local address) has been read meanwhile
+			case <-time.After(c12Watch):
+			}
+		} else {
+			onceB.Do(func() { close(enteredB) })
+		}
+		r := new(dns.Msg)
+		r.SetReply(req)
+		rw.WriteMsg(r)
+	})
+	srv := &dns.Server{Addr: "0.0.0.0:0", Net: "udp", Handler: h, NotifyStartedFunc: func() { close(started) }}
+	serveErr := make(chan error, 1)
+	go func() { serveErr <- srv.ListenAndServe() }()
+	select {
+	case <-started:
+	case err := <-serveErr:
+		w.Inconclusive("multihomed-listen:" + fmt.Sprint(err))
+		return
+	case <-time.After(c12Watch):
+		w.Inconclusive("multihomed-server-did-not-start")
+		return
+	}
+	defer func() { srv.Shutdown(); <-serveErr }()
+	_, port, _ := net.SplitHostPort(srv.PacketConn.LocalAddr().String())
+	ca, errA := net.Dial("udp", "127.0.0.1:"+port)
+	cb, errB := net.Dial("udp", "127.0.0.2:"+port)
+	if errA != nil || errB != nil {
+		w.Inconclusive(fmt.Sprintf("multihomed-dial:%v/%v", errA, errB))
+		return
+	}
+	defer ca.Close()
+	defer cb.Close()
+	mk := func(name string, id uint16) []byte {
+		q := new(dns.Msg)
+		q.SetQuestion(name, dns.TypeA)
+		q.Id = id
+		b, _ := q.Pack()
+		return b
+	}
+	w.Eval(1)
+	w.Count("multihomed_rounds", 1)
+	ca.Write(mk(fmt.Sprintf("a.j%d.example.", j), 0xA000+uint16(j)))
+	select {
+	case <-enteredA:
+	case <-time.After(c12Watch):
+		w.Inconclusive("multihomed-first-request-not-handled")
+		return
+	}
+	cb.Write(mk(fmt.Sprintf("b.j%d.example.", j), 0xB000+uint16(j)))
+	read := func(c net.Conn, id uint16) bool {
+		buf := make([]byte, 512)
+		c.SetReadDeadline(time.Now().Add(c12Watch))
+		n, err := c.Read(buf)
+		return err == nil && n >= 12 && binary.BigEndian.Uint16(buf) == id
+	}
+	okB := read(cb, 0xB000+uint16(j))
+	okA := read(ca, 0xA000+uint16(j))
+	w.NontrivialStr("multihomed", fmt.Sprint(j))
+	if !okA || !okB {
+		w.Violation("C12/reply-did-not-reach-its-client/udp-wildcard", fmt.Sprintf("server on the wildcard address, client A via 127.0.0.1 (handler held while the datagram of client B via 127.0.0.2 was read): reply received A=%v B=%v - a reply sent from another local address than the one the client used never arrives on its connected socket", okA, okB), nil)
+	}
+}
+
 // c12ResponseWrite: the server-side writer refuses messages over 65535 octets on streams.
 func c12ResponseWrite(w *core.W, j int) {
 	ln := netsim.NewListener()
@@ -923,6 +997,7 @@ func init() {
 		section{"ids", tiered(300, 6000), c12IDs},
 		section{"respwrite", tiered(3, 30), c12ResponseWrite},
 		section{"crosstalk", tiered(16, 400), c12CrossTalk},
+		section{"multihomed", tiered(6, 100), c12MultiHomed},
 	)
 	core.Register(&core.Monitor{
 		ID: "C12", Level: "fault_enumeration", Plan: plan, Run: run, Race: true, Terminates: true, MaxParallel: 8,
@@ -930,6 +1005,6 @@ func init() {
 			"65536+ octet writes; stream/datagram ID handling with 0..5 stale/duplicate/foreign replies in seeded orders; cross-talk: 4..32 concurrent clients x 12 unique requests against real loopback UDP/TCP servers with scribbled recycled buffers and hook delays, offline exactly-once/no-mixing check; a third of the clients sign with TSIG (handler must see TsigStatus nil, signed replies must verify); after every split plan the following message on the stream is read too, incl. segments that carry the end of one frame and the start of the next; race detector on; " +
 			"non-trivial = distinct (size, split plan) / scripted reply order / cross-talk round",
 		Assumptions: []string{"loss of UDP datagrams is legal: an unanswered request stays open, never 'failed'", "a watchdog of 20 s decides 'hang' for in-memory transports"},
-		MinObserved: []string{"split_plans", "fault_offsets", "server_split_plans", "datagram_scripts", "exchanges_udp", "exchanges_tcp", "hook_poolPut", "oversize_response_writes", "following_messages_read", "conn_read_calls", "write_sequences", "signed_requests_handled_udp", "signed_requests_handled_tcp"},
+		MinObserved: []string{"split_plans", "fault_offsets", "server_split_plans", "datagram_scripts", "exchanges_udp", "exchanges_tcp", "hook_poolPut", "oversize_response_writes", "following_messages_read", "conn_read_calls", "write_sequences", "multihomed_rounds", "signed_requests_handled_udp", "signed_requests_handled_tcp"},
 	})
 }
